@@ -87,6 +87,11 @@ def _facts(ctx):
             conv_calls.append(c)
     facts["conv_calls"] = conv_calls
     facts["write_opens"] = [c for c in _calls(mi.tree) if _is_write_open(c)]
+    # type=argparse.FileType("w"): the file is created/truncated by parse_args() itself
+    ft = [c for c in _calls(mi.tree) if _callee_name(c) == "FileType" and c.args and isinstance(c.args[0], ast.Constant) and isinstance(c.args[0].value, str) and any(ch in c.args[0].value for ch in "wax+")]
+    if ft:
+        facts["write_opens"] += [c for c in _calls(mi.tree) if _callee_name(c) in ("parse_args", "parse_known_args")]
+        facts["filetype"] = ft
     facts["prints"] = [c for c in _calls(mi.tree) if _callee_name(c) == "print"]
     facts["read_opens"] = [c for c in _calls(mi.tree) if _callee_name(c) == "open" and not _is_write_open(c)]
     facts["raises"] = [n for n in ast.walk(mi.tree) if isinstance(n, ast.Raise)]
@@ -190,6 +195,8 @@ def rule_r2(ctx):
         rr.fail("C16-R2|__main__|no-write", f"{mi.rel}: the output file is opened but the result is never written to it", what="write")
     # the write goes to the file opened from args.output
     for w in f["write_opens"]:
+        if _callee_name(w) in ("parse_args", "parse_known_args"):
+            continue
         rr.instances += 1
         a0 = w.args[0] if w.args else None
         if isinstance(a0, ast.Attribute) and a0.attr in ("output", "o"):
